@@ -323,7 +323,7 @@ def check(run):
     run.corr["rule"] = ("hexread: valid texts (0..20 bytes, lower/upper/mixed case, with/without 0x, with/without one trailing whitespace of 8 kinds) and a "
                         "malformed stream (odd, non-hex, inner/double whitespace, tiny texts) x fragment schedules (whole, 1-byte, random, split in 0x, "
                         "split in a pair, zero entries) x buffer sizes (1, 2, 3, default, big, mixes); all compositions of small texts over {0,x,a,\\n}; "
-                        "hexwrite: data x accept schedules (whole, even, odd, zero, exact+-1, random) x {one, all}; write_all output read back. "
+                        "hexwrite: data x accept schedules (whole, even, odd, zero, exact+-1, random) x {one, all}; long writes (513..1500 bytes, 20000 in the thorough tier) into sinks that accept an even part; write_all output read back. "
                         "distinct = distinct request lines; non-trivial = all")
     # ---- property oracle on the implementation's answers
     found = 0
